@@ -246,7 +246,9 @@ def create_node(
     elif is_generic_list(starting_symbol):
         inner_type = get_generic_parameter(starting_symbol)
         length = decider.random_int(0, 10)
-        nctx = LocalSynthesisContext(context.depth + 1, context.nodes + 1, context.expansions + 1, dependent_vals)
+        # a list costs a depth level only in expansion-depthing mode, as in Grammar.get_distance_to_terminal
+        list_depth = context.depth + int(global_context.grammar.expansion_depthing)
+        nctx = LocalSynthesisContext(list_depth, context.nodes + 1, context.expansions + 1, dependent_vals)
         nli = []
         for _ in range(length):
             nv = create_node(global_context, inner_type, nctx)
